@@ -94,6 +94,31 @@ def c03(run):
         if first_word(r) in ('crash', 'hang', 'bad'):
             run.fail({'request': 'val %s %s %s' % (op, a, b), 'answer': r}, 'a value operation panics: ' + r[:40])
     run.extra['exhaustive'] = True
+    # (i') the number instance of the model itself: Display and FromStr of the model's f64 against Rust's,
+    # on boundaries and random bit patterns (this validation is part of the trusted base, DESIGN §3.2)
+    nb = run.n(3000, 60000)
+    pats = [0, 1, 0x8000000000000000, 0x7ff0000000000000, 0xfff0000000000000, 0x7ff8000000000000, 0x000fffffffffffff,
+            0x0010000000000000, 0x7fefffffffffffff, 0x3ff0000000000000, 0x3fb999999999999a, 0x4340000000000000, 0x433fffffffffffff]
+    for e in range(0, 2047, 7):
+        pats += [e << 52, (e << 52) | 1, (e << 52) | 0xfffffffffffff]
+    while len(pats) < nb:
+        pats.append(rng.getrandbits(64))
+    freqs = ['fmt %016x' % b for b in pats]
+    fm, fim = run.tie(freqs, functional=True, desc=lambda i: {'request': freqs[i]})
+    texts_ = [unhx(r).decode() for r in fim if r and r.startswith('x')]
+    extra_txt = ['1e5', '5.', '.5', '1E5', '+5', '-0', 'inf', 'nan', 'infinity', '1e400', '-1e-400', '2.4703282292062327e-324',
+                 '2.4703282292062328e-324', '9007199254740993', '1.00000000000000011102230246251565404236316680908203125', '', '.', 'e5', '1e',
+                 ' 1', '1 ', '1_0', '0x10', '1..2', '٣', '1e-0', '00012', '179769313486231580793728971405303415079934132710037826936173778980444968292764750946649017977587207096330286416692887910946555547851940402630657488671505820681908902000708383676273854845817711531764475730270069855571366959622842914819860834936475292719074168444365510704342711559699508093042880177904174497791.9999999999999999999999999999999999999999999999']
+    nreqs = ['num ' + hx(t) for t in texts_[:nb] + extra_txt]
+    nm, nim = run.tie(nreqs, functional=True, desc=lambda i: {'request': nreqs[i]})
+    for b, r in zip(pats, fim):
+        run.case(('fmt', b), True, op='f64-display')
+    bad_rt = 0
+    for t, b, r in zip(texts_, pats, nim):
+        run.case(('num', t), True, op='f64-parse')
+        want = '%016x' % b if (b & 0x7ff0000000000000) != 0x7ff0000000000000 or (b & 0xfffffffffffff) == 0 else '7ff8000000000000'
+        if r != want:
+            run.fail({'bits': '%016x' % b, 'printed': t, 'parsed_back': r}, 'Display of a number does not parse back to the same number (shortest round trip)')
     # (ii) expression programs
     n = run.n(1200, 40000)
     cases = []
